@@ -97,7 +97,10 @@ pub fn markdown_doc(prose: &str, rng: &mut Rng) -> String {
         let fill = *rng.pick(MULTIBYTE_FILL);
         let fill2 = *rng.pick(MULTIBYTE_FILL);
         let body: String = if b == prose_at { prose.to_string() } else { format!("Plain words {fill} here.") };
-        let inline = match rng.below(15) {
+        let inline = match rng.below(17) {
+            // math and code spans with nothing in them
+            15 => format!("{body} Empty math $$$$ here and $$ there {fill}"),
+            16 => format!("`` `` {body} $ $ and ``` ``` x"),
             // wikilinks: with a label, without, with an empty one (the words behind it repeat the word before it)
             12 => format!("[[Page{fill}|]] is what it is {body}"),
             13 => format!("{body} [[Page|{fill2}]] and [[Other]] then"),
